@@ -125,6 +125,33 @@ def call_ext(I, st, f, args, kw, frame, node):
         if meth in ('addHandler', 'removeHandler'):
             st.ev('ext', name, tuple(args), (), frame.qual(), node.lineno)
         return [(st, NONE)]
+    if name in ('any', 'all') and len(args) == 1 and not kw:
+        # truthiness of every element, left to right, with short circuit (Python semantics)
+        from .exprs import seq_elements, truth_value
+        want = (name == 'any')
+        out = []
+        for (s0, seq) in I.force(st, args[0]):
+            if isinstance(seq, (Opaque, SStr)) or seq is NONE:
+                out.extend(I.decide(s0, (name, vkey(seq)), BOOL, frozenset([True])))
+                continue
+            elems = seq_elements(I, s0, seq)
+            if any(isinstance(x, Star) for x in elems):
+                out.extend(I.decide(s0, (name, vkey(seq)), BOOL, frozenset([True])))
+                continue
+
+            def rec(s, rest):
+                if not rest:
+                    return [(s, not want)]
+                res = []
+                for (s2, x) in I.force(s, rest[0]):
+                    for (s3, b) in truth_value(I, s2, x, frame, node):
+                        if b == want:
+                            res.append((s3, want))
+                        else:
+                            res.extend(rec(s3, rest[1:]))
+                return res
+            out.extend(rec(s0, elems))
+        return out
     # ---- list / dict methods
     if f.recv is not None and isinstance(f.recv, Obj) and (f.recv.oid in st.seqs or f.recv.oid in st.maps):
         from .containers import call_container_method
@@ -210,6 +237,7 @@ def _call_builtin(I, st, f, name, args, kw, frame, node, where):
             if len(r) > 64:
                 raise Unsupported('long constant range')
             return [(st, IterV([Num.const(i) for i in r], 'range'))]
+        st.ev('range', tuple(args), frame.qual())
         return [(st, IterV([Star('range(%s)' % ','.join(_k(a) for a in args), '@num')], 'range'))]
     if name == 'isinstance':
         return isinstance_value(I, st, args[0], args[1], frame)
